@@ -6,6 +6,19 @@ pid = sys.argv[1]
 n = int(sys.argv[2]) if len(sys.argv) > 2 else 3
 p = [json.loads(l) for l in open(os.path.join(V, 'properties.jsonl'))]
 p = [x for x in p if x['id'] == pid][0]
+import glob
+round2 = '--round2' in sys.argv
+avoid = ''
+suffix = ''
+if round2:
+    suffix = 'b'
+    prev = []
+    for m in sorted(glob.glob(os.path.join(V, 'seeded', pid + '_m*', 'meta.json'))):
+        d = json.load(open(m))
+        prev.append('  - %s (%s)' % (d.get('title', ''), ', '.join(d.get('files', []))))
+    avoid = ("\nALREADY DONE by an earlier round (do NOT repeat these or close variants; pick other code sites, other clauses of the "
+             "property, other manifestation mechanisms — e.g. state carried between calls on one object, aliasing of arrays handed in or out, "
+             "an unusual but legal configuration, interaction of two options, boundary values, order of operations):\n" + '\n'.join(prev) + '\n')
 print(f"""You are a careful software engineer asked to inject realistic, subtle regressions into the Python package icecube/skyllh
 (a framework for unbinned likelihood analyses of neutrino data) in order to evaluate somebody else's verification tooling, which
 you know nothing about and must not look for (do not read anything under /verif).
@@ -23,6 +36,7 @@ THE PROPERTY that the package is supposed to satisfy (this is all you get):
   quantified over: {p['quantifier']['text']}
   code anchors: files {', '.join(p['anchors']['files'])}; mechanisms: {'; '.join(m['name'] + ' @ ' + m['where'] for m in p['anchors']['mechanism'])}
 
+{avoid}
 TASK: produce {n} DIFFERENT source changes (each a small patch to files under skyllh/, 1-15 changed lines, looking like a plausible
 refactoring slip or "optimisation", no comments announcing the bug), each of which
   (a) BREAKS the property above for some inputs / histories / schedules,
@@ -34,9 +48,9 @@ refactoring slip or "optimisation", no comments announcing the bug), each of whi
       property violated, printing what it observed) that exits 1 with your change applied and exits 0 on the unchanged tree.
 Make the {n} changes target different parts/clauses of the property and different code sites where possible.
 
-DELIVERABLE: for k = 1..{n} a directory /tmp/mut_{pid}/{pid}_m<k>/ containing
+DELIVERABLE: for k = 1..{n} a directory /tmp/mut_{pid}/{pid}_m<k>{suffix}/ containing
   patch.diff   (output of `git -C /tmp/mw_{pid} diff` for this change alone, against the worktree's HEAD),
-  demo.py      (the demonstration; it must import skyllh from the tree given by PYTHONPATH, no hard-coded /tmp/mw path inside),
+  demo.py      (the demonstration; it must import skyllh from the tree given by PYTHONPATH, no hard-coded /tmp/mw path inside, no assertion on skyllh.__file__),
   meta.json    {{"property": "{pid}", "title": "<one line>", "breaks": "<which clause of the property and how>",
                 "needs": "<what specific input / sequence / configuration is needed for it to manifest>",
                 "files": ["skyllh/..."], "ran": ["<commands you ran and their outcome, briefly>"]}}
